@@ -14,7 +14,7 @@ def main():
     sd, name, prop = sys.argv[1], sys.argv[2], sys.argv[3]; checks = [prop] + [c for c in sys.argv[4:] if c != prop]
     out = os.path.join(sd, 'out'); res = {'property': prop, 'name': name}
     head = sh('git -C /repo rev-parse HEAD').stdout.strip()
-    sh('git -C %s checkout -q --detach %s && git -C %s checkout -- . && git -C %s clean -fdq' % (REPO, head, REPO, REPO))
+    sh('git -C %s checkout -q --detach %s && git -C %s checkout -- . && git -C %s clean -fdq -e _build -e _build0' % (REPO, head, REPO, REPO))
     # baseline build (unchanged HEAD)
     if not os.path.exists(SB0 + '/.head') or open(SB0 + '/.head').read() != head:
         r = sh('cmake -G Ninja -S %s -B %s > /dev/null && cmake --build %s -j8' % (REPO, SB0, SB0)); open(SB0 + '/.head', 'w').write(head)
@@ -35,8 +35,11 @@ def main():
         else:
             t0 = time.time(); r = sh('ctest --test-dir %s -j6 --timeout 900' % SB)
             res['ctest'] = [l for l in r.stdout.split('\n') if 'tests passed' in l or 'tests failed' in l][-1:] ; res['ctest_ok'] = '100% tests passed' in r.stdout
-            r1 = sh('bash %s/demo/run.sh %s' % (out, SB), cwd=os.path.join(out, 'demo')); res['demo_with_change'] = r1.returncode
-            r0 = sh('bash %s/demo/run.sh %s' % (out, SB0), cwd=os.path.join(out, 'demo')); res['demo_without_change'] = r0.returncode
+            # many demos take the source tree to be the parent of the build directory: offer the builds under that name
+            for link, tgt in ((REPO + '/_build', SB), (REPO + '/_build0', SB0)):
+                if not os.path.islink(link): os.symlink(tgt, link)
+            r1 = sh('bash %s/demo/run.sh %s' % (out, REPO + '/_build'), cwd=os.path.join(out, 'demo')); res['demo_with_change'] = r1.returncode
+            r0 = sh('bash %s/demo/run.sh %s' % (out, REPO + '/_build0'), cwd=os.path.join(out, 'demo')); res['demo_without_change'] = r0.returncode
             res['demo_tail_with'] = r1.stdout[-400:]
         env = dict(os.environ, VERIF_REPO=REPO, VERIF_BUILD=BASE + '/build', VERIF_EVIDENCE_DIR=BASE + '/out/evidence', VERIF_FINDINGS_DIR=BASE + '/out/findings/' + name,
                    VERIF_WORKERS=os.environ.get('VERIF_WORKERS', '8'))
@@ -48,7 +51,7 @@ def main():
                                 'summary': [l for l in p.stdout.split('\n') if l.startswith(c + ' tier')][-1:]}
             os.makedirs(BASE + '/out', exist_ok=True); open(BASE + '/out/seed.%s.%s.log' % (name, c), 'w').write(p.stdout)
     finally:
-        sh('git -C %s checkout -- . && git -C %s clean -fdq' % (REPO, REPO))
+        sh('git -C %s checkout -- . && git -C %s clean -fdq -e _build -e _build0' % (REPO, REPO))
     dst = os.path.join(V, 'seeded', name); os.makedirs(dst, exist_ok=True)
     shutil.copy(os.path.join(out, 'patch.diff'), dst)
     if os.path.isdir(os.path.join(dst, 'demo')): shutil.rmtree(os.path.join(dst, 'demo'))
